@@ -256,6 +256,30 @@ pub fn rename_nt(a: &mut Alts, from: &str, to: &str) {
 
 /// renames some non-terminals to names that look like the helpers parol generates
 fn hostile_rename(gr: &mut Grammar, t: &mut Tape, n_nt: usize) {
+    // numbered start symbol with numbered siblings (S1, S2, S3: the names a fresh-name search
+    // starting from the start symbol would try next)
+    if t.next(4) == 0 {
+        let n = t.next(3);
+        let stem = ["S", "Expr", "A"][t.next(3)];
+        let mut k = n;
+        for i in 0..n_nt.min(1 + t.next(3)) {
+            let new = format!("{stem}{k}");
+            k += 1;
+            if gr.prods.iter().any(|p| p.lhs == new) {
+                continue;
+            }
+            let old = gr.prods[i].lhs.clone();
+            for p in gr.prods.iter_mut() {
+                if p.lhs == old {
+                    p.lhs = new.clone();
+                }
+                rename_nt(&mut p.alts, &old, &new);
+            }
+            if gr.start == old {
+                gr.start = new.clone();
+            }
+        }
+    }
     for i in 1..n_nt {
         if t.next(3) != 0 {
             continue;
